@@ -178,6 +178,12 @@ namespace DFS
   {
     const sector_count_type start = start_sector(), end=last_sector();
     unsigned long len = file_length();
+    if (0 == len)
+      {
+	// A zero-length file occupies no sectors (its start sector may
+	// even lie beyond the end of the media), so read nothing.
+	return true;
+      }
     for (sector_count_type sec = start; sec <= end; ++sec)
       {
 	assert(sec <= end);
